@@ -270,21 +270,112 @@ class Poly:
 
 
 class Frac:
-    """ s * n / prod(factor^e) ; s Fraction, n Poly, factors primitive Polys keyed by content"""
+    """ s * prod(nf_i^a_i) / prod(df_j^b_j)
 
-    __slots__ = ("s", "n", "d")
+    s: Fraction; numerator and denominator are kept FACTORED (dict key -> (primitive Poly, exponent)); the numerator is
+    expanded lazily (property .n) only when a sum needs it.  Common factors cancel by key in products, so e.g.
+    p * (N / p^2) becomes N / p without any polynomial division."""
 
-    def __init__(self, s, n, d=None):
+    __slots__ = ("s", "nf", "d", "_n")
+
+    def __init__(self, s, n=None, d=None, nf=None):
         self.s = s
-        self.n = n
         self.d = d if d is not None else {}
+        self._n = None
+        if nf is not None:
+            self.nf = nf
+            return
+        self.nf = {}
+        if n is None:
+            return
+        if not n.t:
+            self.s = Fraction(0)
+            return
+        self._absorb(n)
+
+    def _absorb(self, n):
+        """put polynomial n into the factored numerator: content -> scalar, common monomial -> generator factors"""
+        u, pp = n.primitive()
+        self.s = self.s * u
+        if pp.is_const():
+            return
+        ring = pp.ring
+        # common monomial of all terms
+        g = None
+        for m in pp.t:
+            if g is None:
+                g = m
+            elif g:
+                # per-variable minimum of exponents
+                x, y, out, sh = g, m, 0, 0
+                while x and y:
+                    e = min(x & EMASK, y & EMASK)
+                    out |= e << sh
+                    x >>= BITS
+                    y >>= BITS
+                    sh += BITS
+                g = out
+            if g == 0:
+                break
+        if g:
+            pp = Poly(ring, {m - g: c for m, c in pp.t.items()}, pp.mx)
+            for i, e in ring.mono_items(g):
+                gi = ring.gen(i)
+                cur = self.nf.get(gi.key())
+                self.nf[gi.key()] = (gi, e + (cur[1] if cur else 0))
+            if pp.is_const():
+                self.s = self.s * pp.const_value()
+                return
+            u2, pp = pp.primitive()
+            self.s = self.s * u2
+        cur = self.nf.get(pp.key())
+        self.nf[pp.key()] = (pp, 1 + (cur[1] if cur else 0))
 
     @staticmethod
     def of_poly(p):
         return Frac(Fraction(1), p)
 
+    @property
+    def n(self):
+        """expanded numerator polynomial (without the scalar s)"""
+        r = self._n
+        if r is None:
+            for key, (p, e) in sorted(self.nf.items(), key=lambda kv: len(kv[1][0].t)):
+                q = p if e == 1 else p.pow(e)
+                r = q if r is None else r * q
+            if r is None:
+                any_ring = None
+                for key, (p, e) in self.d.items():
+                    any_ring = p.ring
+                    break
+                r = (any_ring or _DEFAULT_RING[0]).const(1)
+            self._n = r
+        return r
+
     def is_zero(self):
-        return self.s == 0 or self.n.is_zero()
+        return self.s == 0
+
+    def _clean(self):
+        """cancel factors common to numerator and denominator"""
+        if not self.nf or not self.d:
+            return self
+        common = [k for k in self.nf if k in self.d]
+        if not common:
+            return self
+        nf, d = dict(self.nf), dict(self.d)
+        for k in common:
+            p, a = nf[k]
+            _, b = d[k]
+            if a > b:
+                nf[k] = (p, a - b)
+                del d[k]
+            elif b > a:
+                d[k] = (p, b - a)
+                del nf[k]
+            else:
+                del nf[k]
+                del d[k]
+        return Frac(self.s, None, d, nf=nf)
 
     @staticmethod
     def _lcm(d1, d2):
@@ -315,10 +406,34 @@ class Frac:
             return o
         if o.is_zero():
             return self
+        # factors common to both numerators stay factored
+        common = {}
+        for k, (p, a) in self.nf.items():
+            c2 = o.nf.get(k)
+            if c2 is not None:
+                common[k] = (p, min(a, c2[1]))
+
+        def rest(fr):
+            r = None
+            for k, (p, a) in sorted(fr.nf.items(), key=lambda kv: len(kv[1][0].t)):
+                e = a - (common[k][1] if k in common else 0)
+                if e > 0:
+                    q = p if e == 1 else p.pow(e)
+                    r = q if r is None else r * q
+            return r
+
         dl = Frac._lcm(self.d, o.d)
         c1, c2 = Frac._cof(dl, self.d), Frac._cof(dl, o.d)
-        n1 = self.n if c1 is None else self.n * c1
-        n2 = o.n if c2 is None else o.n * c2
+        n1, n2 = rest(self), rest(o)
+        if c1 is not None:
+            n1 = c1 if n1 is None else n1 * c1
+        if c2 is not None:
+            n2 = c2 if n2 is None else n2 * c2
+        ring = _ring_of(self, o)
+        if n1 is None:
+            n1 = ring.const(1)
+        if n2 is None:
+            n2 = ring.const(1)
         s1, s2 = self.s, o.s
         L = lcm(s1.denominator, s2.denominator)
         a1 = s1.numerator * (L // s1.denominator)
@@ -326,11 +441,17 @@ class Frac:
         g = gcd(a1, a2)
         n = n1.scale(a1 // g) + n2.scale(a2 // g)
         if n.is_zero():
-            return Frac(Fraction(0), n, {})
-        return _cancel_vars(Frac(Fraction(g, L), n, dl))
+            return Frac(Fraction(0))
+        r = Frac(Fraction(g, L), n, dict(dl))
+        for k, (p, e) in common.items():
+            cur = r.nf.get(k)
+            r.nf[k] = (p, e + (cur[1] if cur else 0))
+        return r._clean()
 
     def __neg__(self):
-        return Frac(-self.s, self.n, self.d)
+        r = Frac(-self.s, None, self.d, nf=self.nf)
+        r._n = self._n
+        return r
 
     def __sub__(self, o):
         return self + (-o)
@@ -340,124 +461,107 @@ class Frac:
             return self
         if o.is_zero():
             return o
-        n1, n2 = self.n, o.n
-        d1, d2 = self.d, o.d
-        s = self.s * o.s
-        # cheap cancellation: a whole numerator equal to a denominator factor of the other operand
-        if d2 and len(n1.t) > 1:
-            u, pp = n1.primitive()
-            cur = d2.get(pp.key())
-            if cur is not None:
-                d2 = dict(d2)
-                if cur[1] == 1:
-                    del d2[pp.key()]
-                else:
-                    d2[pp.key()] = (cur[0], cur[1] - 1)
-                n1 = n1.ring.const(1)
-                s *= u
-        if d1 and len(n2.t) > 1:
-            u, pp = n2.primitive()
-            cur = d1.get(pp.key())
-            if cur is not None:
-                d1 = dict(d1)
-                if cur[1] == 1:
-                    del d1[pp.key()]
-                else:
-                    d1[pp.key()] = (cur[0], cur[1] - 1)
-                n2 = n2.ring.const(1)
-                s *= u
-        if not d1:
-            d = d2
-        elif not d2:
-            d = d1
+        if not o.nf and not o.d:
+            r = Frac(self.s * o.s, None, self.d, nf=self.nf)
+            r._n = self._n
+            return r
+        if not self.nf and not self.d:
+            r = Frac(self.s * o.s, None, o.d, nf=o.nf)
+            r._n = o._n
+            return r
+        nf = dict(self.nf)
+        for k, (p, e) in o.nf.items():
+            cur = nf.get(k)
+            nf[k] = (p, e + (cur[1] if cur is not None else 0))
+        if not self.d:
+            d = o.d
+        elif not o.d:
+            d = self.d
         else:
-            d = dict(d1)
-            for k, (p, e) in d2.items():
+            d = dict(self.d)
+            for k, (p, e) in o.d.items():
                 cur = d.get(k)
                 d[k] = (p, e + (cur[1] if cur is not None else 0))
-        return _cancel_vars(Frac(s, n1 * n2, d))
+        return _reduce_rel_powers(Frac(self.s * o.s, None, d, nf=nf)._clean())
 
     def inv(self):
         if self.is_zero():
             raise ZeroDivisionError("inverse of the zero fraction")
-        ring = self.n.ring
-        num = None
-        for k, (p, e) in self.d.items():
-            q = p if e == 1 else p.pow(e)
-            num = q if num is None else num * q
-        if num is None:
-            num = ring.const(1)
-        u, pp = self.n.primitive()
-        s = 1 / (self.s * u)
-        if pp.is_const():
-            return Frac(s, num, {})
-        if len(pp.t) == 1:
-            # a monomial: one single-variable factor per generator (lets _cancel_vars divide them out later)
-            ((m, _c),) = pp.t.items()
-            d = {}
-            for i, e in ring.mono_items(m):
-                g = ring.gen(i)
-                d[g.key()] = (g, e)
-            return _cancel_vars(Frac(s, num, d))
-        return _cancel_vars(Frac(s, num, {pp.key(): (pp, 1)}))
+        return Frac(1 / self.s, None, dict(self.nf), nf=dict(self.d))
 
     def pow(self, k):
         if k < 0:
             return self.inv().pow(-k)
         if k == 0:
-            return Frac(Fraction(1), self.n.ring.const(1))
+            return Frac(Fraction(1))
+        if k == 1:
+            return self
+        nf = {key: (p, e * k) for key, (p, e) in self.nf.items()}
         d = {key: (p, e * k) for key, (p, e) in self.d.items()}
-        return Frac(self.s ** k, self.n.pow(k), d)
+        return _reduce_rel_powers(Frac(self.s ** k, None, d, nf=nf))
 
     def den_poly(self):
         r = None
         for k, (p, e) in self.d.items():
             q = p if e == 1 else p.pow(e)
             r = q if r is None else r * q
-        return r if r is not None else self.n.ring.const(1)
+        return r if r is not None else _ring_of(self).const(1)
 
     def evalf(self, vals):
-        x = float(self.s) * self.n.evalf(vals)
+        x = float(self.s)
+        for k, (p, e) in self.nf.items():
+            x *= p.evalf(vals) ** e
         for k, (p, e) in self.d.items():
             x /= p.evalf(vals) ** e
         return x
 
 
-def _cancel_vars(fr):
-    """divide out single-generator denominator factors g^e that occur in every numerator monomial"""
-    if not fr.d or not fr.n.t:
-        return fr
-    n = fr.n
-    d = None
-    for key, (p, e) in fr.d.items():
-        if len(p.t) != 1:
-            continue
-        ((m, c),) = p.t.items()
-        if c != 1 or m == 0 or (m & (m - 1)) != 0:
-            continue  # not a bare generator
-        sh = m.bit_length() - 1
-        if sh % BITS:
-            continue
-        lo = e
-        for mm in n.t:
-            x = (mm >> sh) & EMASK
-            if x < lo:
-                lo = x
-                if lo == 0:
+_DEFAULT_RING = [None]
+
+
+def _ring_of(*frs):
+    for fr in frs:
+        for tab in (fr.nf, fr.d):
+            for k, (p, e) in tab.items():
+                return p.ring
+    return _DEFAULT_RING[0]
+
+
+def _reduce_rel_powers(fr):
+    """bare relation generators (radicals R, circle sines S) raised to a power >= 2 in the factored numerator or
+    denominator are rewritten with their relation (R^2 -> u), keeping the normal form canonical"""
+    hit = None
+    for tab in (fr.nf, fr.d):
+        for key, (p, e) in tab.items():
+            if e >= 2 and len(p.t) == 1:
+                ((m, c),) = p.t.items()
+                if c == 1 and m and (m & (m - 1)) == 0 and (m.bit_length() - 1) % BITS == 0 and ((m.bit_length() - 1) // BITS) in p.ring.rel:
+                    hit = True
                     break
-        if lo == 0:
-            continue
-        sub = lo << sh
-        n = Poly(n.ring, {mm - sub: cc for mm, cc in n.t.items()}, n.mx)
-        if d is None:
-            d = dict(fr.d)
-        if e == lo:
-            del d[key]
-        else:
-            d[key] = (p, e - lo)
-    if d is None:
+        if hit:
+            break
+    if not hit:
         return fr
-    return Frac(fr.s, n, d)
+    s = fr.s
+    out = Frac(Fraction(1))
+    num = Frac(s)
+    for tab, invert in ((fr.nf, False), (fr.d, True)):
+        for key, (p, e) in tab.items():
+            is_rel = False
+            if e >= 2 and len(p.t) == 1:
+                ((m, c),) = p.t.items()
+                if c == 1 and m and (m & (m - 1)) == 0 and (m.bit_length() - 1) % BITS == 0:
+                    v = (m.bit_length() - 1) // BITS
+                    is_rel = v in p.ring.rel
+            if is_rel:
+                rel = Frac(Fraction(1), p.ring.rel[v]).pow(e // 2)
+                if e % 2:
+                    rel = rel * Frac(Fraction(1), None, {}, nf={key: (p, 1)})
+                part = rel
+            else:
+                part = Frac(Fraction(1), None, {}, nf={key: (p, e)})
+            num = num * (part.inv() if invert else part)
+    return num
 
 
 def lincomb(t, scale=Fraction(1), acc=None):
@@ -500,6 +604,8 @@ def canon(x, memo):
         k = x.args[1]
         if isinstance(b, S.Sym) and b.op == "fn" and b.args[0] == "sqrt" and k % 2 == 0:
             r = S.power(b.args[1], k // 2)
+        elif isinstance(b, S.Sym) and b.op == "fn" and b.args[0] == "abs" and k % 2 == 0:
+            r = S.power(b.args[1], k)
         elif isinstance(b, S.Sym) and b.op == "fn" and b.args[0] == "exp":
             r = S.fn("exp", S.mul(Fraction(k), b.args[1]))
         else:
@@ -564,6 +670,7 @@ class Conv:
         self.roots = [canon(r, self.cmemo) for r in roots]
         self.qe, self.qa = collect_denoms(self.roots)
         self.ring = Ring()
+        _DEFAULT_RING[0] = self.ring
         self.cache = {}
         self.oracle = oracle
         self.assume_pos = {}  # canon node -> reason (log argument > 0)
@@ -571,8 +678,8 @@ class Conv:
         self.assume_nonzero = {}  # divisors / atan2 radii
         self.radkeys = {}
         self.opaque = []
-        self.one = Frac(Fraction(1), self.ring.const(1))
-        self.zero = Frac(Fraction(0), self.ring.const(0))
+        self.one = Frac(Fraction(1))
+        self.zero = Frac(Fraction(0))
 
     def canon(self, x):
         return canon(x, self.cmemo)
@@ -585,25 +692,25 @@ class Conv:
         c = Fraction(c)
         if c == 0:
             return self.zero
-        return Frac(c, self.ring.const(1))
+        return Frac(c)
 
     def convert_grouped(self, pairs):
         """pairs: [(Fraction coefficient, original DAG node)]; the linear combination is flattened through
         additions and the addends are summed per denominator signature.  Returns the list of per-group sums
         (Fracs with pairwise different denominators); their total is the value of the combination."""
         groups = {}
+        acc = {}
         for coef, x in pairs:
-            cx = self.canon(x)
-            for atom, c in lincomb(cx).items():
-                c = c * coef
-                if c == 0:
-                    continue
-                fr = self.const(c) if atom is None else self.f(atom) * self.const(c)
-                if fr.is_zero():
-                    continue
-                sig = frozenset((k, e) for k, (p, e) in fr.d.items())
-                cur = groups.get(sig)
-                groups[sig] = fr if cur is None else cur + fr
+            lincomb(self.canon(x), Fraction(coef), acc)  # identical addends on both sides cancel here, unconverted
+        for atom, c in acc.items():
+            if c == 0:
+                continue
+            fr = self.const(c) if atom is None else self.f(atom) * self.const(c)
+            if fr.is_zero():
+                continue
+            sig = frozenset((k, e) for k, (p, e) in fr.d.items())
+            cur = groups.get(sig)
+            groups[sig] = fr if cur is None else cur + fr
         return [g for g in groups.values() if not g.is_zero()]
 
     def total(self, groups):
